@@ -1,16 +1,525 @@
-// World model: files, lock, stdout (DESIGN 3.4). Filled in incrementally.
+// World model (DESIGN 3.4). Two layers:
+//   L0: system calls used by withLock (syscall.Open/Flock/Close, ensureFileExists) so that the
+//       real withLock is executed;
+//   L1: ergo's storage and terminal functions (loadGraph, readEvents, appendEvents,
+//       replaceEventsAtomically, writeJSON, ParseTaskInput, ...) replaced by stubs over a symbolic
+//       store graph. Every stub hit is reported in the evidence (models_hit).
 package main
 
-import "go/types"
+import (
+	"fmt"
+	"go/types"
+	"strings"
 
-type World struct {
-	ex *Exec
+	"golang.org/x/tools/go/ssa"
+)
+
+type LockEv struct {
+	G    *Term
+	How  *Term // BV64 flag word passed to flock
+	Busy *Term
+	Kind string // flock | unlock | open | close
 }
 
-func NewWorld(ex *Exec) *World { return &World{ex: ex} }
+type WriteEv struct {
+	G      *Term
+	Kind   string // append | replace
+	N      *Term  // number of events
+	InLock *Term  // was a lock held (by this process) at the time
+}
 
-func (w *World) lookup(name string) modelFn { return nil }
+type World struct {
+	ex        *Exec
+	active    bool
+	cur       *AddrT // canonical store graph (never handed out)
+	token     *Object
+	pending   RefV // events written since the last load ([]Event)
+	written   RefV // all events written by the command(s) under test ([]Event)
+	lockEvs   []LockEv
+	writeEvs  []WriteEv
+	lockHeld  *Term
+	nLock     int
+	eventT    types.Type
+	replaced  *Term // a replace (compact) happened
+	loads     int
+	models    map[string]modelFn
+	dirAtom   *Term
+	busyCount int
+
+	stdinText     Value
+	stdinTask     Value
+	stdinParseErr *Term
+	lastReplayErr Value
+	historyLost   *Term
+	replacedWith  Value
+	lockFileSeen  bool
+}
+
+func NewWorld(ex *Exec) *World {
+	w := &World{ex: ex, lockHeld: False, replaced: False, historyLost: False}
+	w.models = map[string]modelFn{
+		ergoPath + ".zzWorldInit":  w.mWorldInit,
+		ergoPath + ".zzWritten":    w.mWritten,
+		ergoPath + ".zzPost":       w.mPost,
+		ergoPath + ".zzOutCount":   w.mOutCount,
+		ergoPath + ".zzLockStats":  w.mLockStats,
+		ergoPath + ".zzStdinTask":  w.mStdinTask,
+		ergoPath + ".zzStdinText":  func(ex *Exec, c *callCtx) Value { w.stdinText = c.args[0]; return nil },
+		ergoPath + ".zzLastJSON":   w.mLastJSON,
+		"syscall.Open":            w.mSysOpen,
+		"syscall.Flock":           w.mFlock,
+		"syscall.Close":           func(ex *Exec, c *callCtx) Value { return NilRef() },
+		"os.IsNotExist":           w.mIsNotExist,
+		"path/filepath.Join":      w.mJoin,
+		"path/filepath.Dir":       func(ex *Exec, c *callCtx) Value { return strUF1("pathdir", c.args[0]) },
+		"path/filepath.Base":      func(ex *Exec, c *callCtx) Value { return strUF1("pathbase", c.args[0]) },
+		ergoPath + ".ensureFileExists": w.mEnsureFile,
+		ergoPath + ".ergoDir":     w.mErgoDir,
+		ergoPath + ".getEventsPath": func(ex *Exec, c *callCtx) Value { return strUF1("eventspath", c.args[0]) },
+		ergoPath + ".loadGraph":   w.mLoadGraph,
+		ergoPath + ".readEvents":  w.mReadEvents,
+		ergoPath + ".replayEvents": w.mReplayEvents,
+		ergoPath + ".appendEvents": w.mAppendEvents,
+		ergoPath + ".appendEventsAtomically": w.mAppendAtomically,
+		ergoPath + ".replaceEventsAtomically": w.mReplace,
+		ergoPath + ".writeJSON":   w.mWriteJSON,
+		ergoPath + ".stdinIsPiped": w.mStdinPiped,
+		ergoPath + ".stdoutIsTTY": func(ex *Exec, c *callCtx) Value { return ex.nondet("world.stdoutIsTTY", "bool") },
+		ergoPath + ".getTerminalWidth": func(ex *Exec, c *callCtx) Value { return ex.nondet("world.termWidth", "int") },
+		ergoPath + ".ParseTaskInput": w.mParseTaskInput,
+		ergoPath + ".readBodyFromStdinOrEmpty": w.mReadBody,
+		ergoPath + ".validateResultPath": w.mValidateResultPath,
+		ergoPath + ".captureResultEvidence": w.mCaptureEvidence,
+		ergoPath + ".deriveFileURL": func(ex *Exec, c *callCtx) Value {
+			return StrV{T: UF("fileurl", SInt, c.args[0].(StrV).T, c.args[1].(StrV).T)}
+		},
+	}
+	return w
+}
+
+func strUF1(name string, v Value) Value {
+	s := v.(StrV)
+	return StrV{T: UF(name, SInt, s.T)}
+}
+
+func (w *World) lookup(name string) modelFn {
+	if !w.active {
+		// intrinsic that switches the world on is always visible
+		if name == ergoPath+".zzWorldInit" {
+			return w.models[name]
+		}
+		return nil
+	}
+	return w.models[name]
+}
 
 func (w *World) lookupInvoke(t types.Type, method string) modelFn { return nil }
 
 func (w *World) bytesTrimSpace(ex *Exec, c *callCtx) Value { panic(unsupported("bytes.TrimSpace")) }
+
+// ---- deep copy of a symbolic heap structure ----
+
+type copier struct {
+	ex   *Exec
+	objs map[*Object]*Object
+	maps map[*MapObject]*MapObject
+}
+
+func (cp *copier) val(v Value) Value {
+	switch x := v.(type) {
+	case StructV:
+		out := StructV{F: make([]Value, len(x.F))}
+		for i := range x.F {
+			out.F[i] = cp.val(x.F[i])
+		}
+		return out
+	case ArrayV:
+		out := ArrayV{E: make([]Value, len(x.E))}
+		for i := range x.E {
+			out.E[i] = cp.val(x.E[i])
+		}
+		return out
+	case RefV:
+		out := RefV{Alts: make([]Alt, len(x.Alts))}
+		for i, a := range x.Alts {
+			out.Alts[i] = Alt{C: a.C, Tgt: cp.tgt(a.Tgt)}
+		}
+		return out
+	}
+	return v
+}
+
+func (cp *copier) obj(o *Object) *Object {
+	if n, ok := cp.objs[o]; ok {
+		return n
+	}
+	n := cp.ex.newObject(o.name+"'", o.typ, nil)
+	cp.objs[o] = n
+	n.val = cp.val(o.val)
+	return n
+}
+
+func (cp *copier) tgt(t Target) Target {
+	switch x := t.(type) {
+	case AddrT:
+		return AddrT{Obj: cp.obj(x.Obj), P: x.P}
+	case MapT:
+		xm := x.M.resolve()
+		if n, ok := cp.maps[xm]; ok {
+			return MapT{M: n}
+		}
+		n := cp.ex.newMap(xm.name+"'", xm.typ)
+		cp.maps[xm] = n
+		for _, e := range xm.entries {
+			n.entries = append(n.entries, &MapEntry{Live: e.Live, Key: e.Key, Val: cp.val(e.Val)})
+		}
+		return MapT{M: n}
+	case SliceT:
+		return SliceT{Arr: cp.obj(x.Arr), Off: x.Off, Len: x.Len, Cap: x.Cap}
+	case IfaceT:
+		return IfaceT{Typ: x.Typ, V: cp.val(x.V)}
+	}
+	return t
+}
+
+func (ex *Exec) deepCopy(v Value) Value {
+	cp := &copier{ex: ex, objs: map[*Object]*Object{}, maps: map[*MapObject]*MapObject{}}
+	return cp.val(v)
+}
+
+// ---- store ----
+
+func (w *World) mWorldInit(ex *Exec, c *callCtx) Value {
+	g := c.args[0].(RefV)
+	at := g.Alts[0].Tgt.(AddrT)
+	cpy := ex.deepCopy(g).(RefV)
+	cat := cpy.Alts[0].Tgt.(AddrT)
+	_ = at
+	w.cur = &cat
+	w.active = true
+	w.token = ex.newObject("store-events-token", nil, ArrayV{})
+	w.pending = NilRef()
+	w.written = NilRef()
+	w.dirAtom = Var("world.dir", SInt)
+	ex.assume(ILt(IntC(0), w.dirAtom))
+	ev := ex.pkg.Type("Event")
+	w.eventT = ev.Type()
+	return StrV{T: w.dirAtom}
+}
+
+func (w *World) mErgoDir(ex *Exec, c *callCtx) Value {
+	return TupleV{E: []Value{StrV{T: UF("ergodir", SInt, w.dirAtom)}, NilRef()}}
+}
+
+func (w *World) mJoin(ex *Exec, c *callCtx) Value {
+	// variadic slice of atoms -> nested UF
+	sl := c.args[0].(RefV)
+	st := sl.Alts[0].Tgt.(SliceT)
+	arr := st.Arr.val.(ArrayV)
+	n := int(st.Len.SVal())
+	acc := arr.E[st.Off].(StrV).T
+	for i := 1; i < n; i++ {
+		acc = UF("pathjoin", SInt, acc, arr.E[st.Off+i].(StrV).T)
+	}
+	return StrV{T: acc}
+}
+
+// applyPending replays the events written since the last load into the canonical store
+// with the real replay loop (loop-head entry).
+func (w *World) applyPending(ex *Exec, c *callCtx) {
+	if len(w.pending.Alts) == 0 {
+		return
+	}
+	fn := ex.pkg.Func("replayEvents")
+	pend := w.pending
+	w.pending = NilRef()
+	src := *w.cur
+	w.installHook(fn, src)
+	saved := c.fr.guard
+	res := ex.callFunction(fn, []Value{pend}, nil, True, c.pos)
+	c.fr.guard = saved
+	tv := res.(TupleV)
+	ng := tv.E[0].(RefV)
+	// keep the canonical object: replay produced a new Graph struct sharing the same maps (plus fresh RDeps)
+	if len(ng.Alts) > 0 {
+		nat := ng.Alts[len(ng.Alts)-1].Tgt.(AddrT)
+		w.cur = &nat
+	}
+	w.lastReplayErr = tv.E[1]
+}
+
+func (w *World) installHook(fn *ssa.Function, src AddrT) {
+	ex := w.ex
+	if ex.entryHooks == nil {
+		ex.entryHooks = map[*ssa.Function]func(fr *Frame){}
+	}
+	ex.entryHooks[fn] = func(fr *Frame) {
+		for _, ins := range fn.Blocks[0].Instrs {
+			al, ok := ins.(*ssa.Alloc)
+			if !ok {
+				continue
+			}
+			if n, ok := al.Type().(*types.Pointer).Elem().(*types.Named); ok && n.Obj().Name() == "Graph" {
+				dst := fr.regs[al].(RefV).Alts[0].Tgt.(AddrT)
+				copyGraphFields(n, dst, src)
+				return
+			}
+		}
+		panic(unsupported("no Graph allocation in replayEvents' entry block"))
+	}
+}
+
+// copyGraphFields: every field except RDeps (which replay rebuilds from empty) is taken from src.
+func copyGraphFields(n *types.Named, dst, src AddrT) {
+	st := n.Underlying().(*types.Struct)
+	sv := getPath(src.Obj.val, src.P).(StructV)
+	dv := getPath(dst.Obj.val, dst.P).(StructV)
+	nf := make([]Value, len(dv.F))
+	copy(nf, dv.F)
+	for i := 0; i < st.NumFields(); i++ {
+		if st.Field(i).Name() == "RDeps" {
+			continue
+		}
+		nf[i] = sv.F[i]
+	}
+	dst.Obj.val = setPath(dst.Obj.val, dst.P, func(Value) Value { return StructV{F: nf} })
+}
+
+func (w *World) mLoadGraph(ex *Exec, c *callCtx) Value {
+	w.applyPending(ex, c)
+	w.loads++
+	cp := ex.deepCopy(Ref1(*w.cur))
+	return TupleV{E: []Value{cp, NilRef()}}
+}
+
+func (w *World) mReadEvents(ex *Exec, c *callCtx) Value {
+	w.applyPending(ex, c)
+	return TupleV{E: []Value{Ref1(SliceT{Arr: w.token, Off: 0, Len: BVC(0, 64), Cap: 0}), NilRef()}}
+}
+
+func (w *World) isToken(v Value) bool {
+	r, ok := v.(RefV)
+	if !ok || len(r.Alts) != 1 {
+		return false
+	}
+	st, ok := r.Alts[0].Tgt.(SliceT)
+	return ok && st.Arr == w.token
+}
+
+func (w *World) mReplayEvents(ex *Exec, c *callCtx) Value {
+	if w.isToken(c.args[0]) {
+		cp := ex.deepCopy(Ref1(*w.cur))
+		return TupleV{E: []Value{cp, NilRef()}}
+	}
+	saved := c.fr.guard
+	res := ex.callFunction(c.fn, c.args, nil, c.guard, c.pos)
+	c.fr.guard = saved
+	return res
+}
+
+func (w *World) record(ex *Exec, c *callCtx, events RefV, kind string) {
+	et := w.eventT
+	saved := c.fr.guard
+	c.fr.guard = c.guard
+	np := ex.appendSlice(c.fr, w.pending, events, et)
+	w.pending = MergeV(c.guard, np, w.pending).(RefV)
+	nw := ex.appendSlice(c.fr, w.written, events, et)
+	w.written = MergeV(c.guard, nw, w.written).(RefV)
+	c.fr.guard = saved
+	w.writeEvs = append(w.writeEvs, WriteEv{G: And(c.guard, Not(ex.panicked)), Kind: kind, N: ex.sliceLen(events), InLock: w.lockHeld})
+}
+
+func (w *World) mAppendEvents(ex *Exec, c *callCtx) Value {
+	w.record(ex, c, c.args[1].(RefV), "append")
+	return NilRef()
+}
+
+func (w *World) mAppendAtomically(ex *Exec, c *callCtx) Value {
+	if !w.isToken(c.args[1]) {
+		ex.notes = append(ex.notes, "appendEventsAtomically: existing events are not the store's own content")
+		w.historyLost = Or(w.historyLost, c.guard)
+	}
+	w.record(ex, c, c.args[2].(RefV), "append-atomic")
+	return NilRef()
+}
+
+func (w *World) mReplace(ex *Exec, c *callCtx) Value {
+	// compact: the store becomes the replay of the given events from an empty graph
+	events := c.args[1].(RefV)
+	w.applyPending(ex, c)
+	fn := ex.pkg.Func("replayEvents")
+	saved := c.fr.guard
+	res := ex.callFunction(fn, []Value{events}, nil, c.guard, c.pos)
+	c.fr.guard = saved
+	tv := res.(TupleV)
+	ng := tv.E[0].(RefV)
+	if len(ng.Alts) == 0 {
+		panic(unsupported("replaceEventsAtomically: replay of the new content always fails"))
+	}
+	if !c.guard.IsTrue() {
+		panic(unsupported("replaceEventsAtomically under a non-trivial guard"))
+	}
+	nat := ng.Alts[len(ng.Alts)-1].Tgt.(AddrT)
+	w.cur = &nat
+	w.lastReplayErr = tv.E[1]
+	w.replaced = Or(w.replaced, c.guard)
+	w.replacedWith = events
+	w.writeEvs = append(w.writeEvs, WriteEv{G: And(c.guard, Not(ex.panicked)), Kind: "replace", N: ex.sliceLen(events), InLock: w.lockHeld})
+	return NilRef()
+}
+
+func (w *World) mWritten(ex *Exec, c *callCtx) Value { return w.written }
+
+// zzPost() (*Graph, error): the store as a later reader sees it.
+func (w *World) mPost(ex *Exec, c *callCtx) Value {
+	w.applyPending(ex, c)
+	cp := ex.deepCopy(Ref1(*w.cur))
+	var e Value = NilRef()
+	if w.lastReplayErr != nil {
+		e = w.lastReplayErr
+	}
+	return TupleV{E: []Value{cp, e}}
+}
+
+// ---- lock (L0) ----
+
+func (w *World) mSysOpen(ex *Exec, c *callCtx) Value {
+	w.nLock++
+	missing := ex.nondet(fmt.Sprintf("world.lock.missing!%d", w.nLock), "bool").(BoolV).T
+	if w.lockFileSeen {
+		missing = False // second open after ensureFileExists
+	}
+	w.lockFileSeen = true
+	enoent := Ref1(IfaceT{Typ: w.errnoType(), V: IntV{BVC(2, 64), false}})
+	fd := IntV{BVC(int64(100+w.nLock), 64), true}
+	return TupleV{E: []Value{fd, MergeV(missing, enoent, NilRef())}}
+}
+
+func (w *World) errnoType() types.Type {
+	p := w.ex.prog.ImportedPackage("syscall")
+	return p.Type("Errno").Type()
+}
+
+func (w *World) mIsNotExist(ex *Exec, c *callCtx) Value {
+	e := c.args[0].(RefV)
+	res := False
+	for _, a := range e.Alts {
+		if it, ok := a.Tgt.(IfaceT); ok && types.Identical(it.Typ, w.errnoType()) {
+			res = Or(res, And(a.C, Eq(it.V.(IntV).T, BVC(2, 64))))
+		}
+	}
+	return BoolV{res}
+}
+
+func (w *World) mEnsureFile(ex *Exec, c *callCtx) Value {
+	return NilRef()
+}
+
+func (w *World) mFlock(ex *Exec, c *callCtx) Value {
+	how := c.args[1].(IntV).T
+	if how.IsConst() && how.SVal() == 8 { // LOCK_UN
+		w.lockEvs = append(w.lockEvs, LockEv{G: c.guard, How: how, Kind: "unlock"})
+		w.lockHeld = And(w.lockHeld, Not(c.guard))
+		return NilRef()
+	}
+	w.busyCount++
+	busy := ex.nondet(fmt.Sprintf("world.lock.busy!%d", w.busyCount), "bool").(BoolV).T
+	w.lockEvs = append(w.lockEvs, LockEv{G: And(c.guard, Not(ex.panicked)), How: how, Busy: busy, Kind: "flock"})
+	w.lockHeld = Or(w.lockHeld, And(c.guard, Not(busy)))
+	ewould := Ref1(IfaceT{Typ: w.errnoType(), V: IntV{BVC(11, 64), false}})
+	return MergeV(busy, ewould, NilRef())
+}
+
+// zzLockStats() (attempts int, nonblocking bool, exclusive bool)
+func (w *World) mLockStats(ex *Exec, c *callCtx) Value {
+	n := BVC(0, 64)
+	nb, exl := True, True
+	for _, l := range w.lockEvs {
+		if l.Kind != "flock" {
+			continue
+		}
+		n = BVBin("bvadd", n, Ite(l.G, BVC(1, 64), BVC(0, 64)))
+		nb = And(nb, Implies(l.G, Eq(BVBin("bvand", l.How, BVC(4, 64)), BVC(4, 64))))
+		exl = And(exl, Implies(l.G, Eq(BVBin("bvand", l.How, BVC(2, 64)), BVC(2, 64))))
+	}
+	return TupleV{E: []Value{IntV{n, true}, BoolV{nb}, BoolV{exl}}}
+}
+
+// ---- terminal / stdin ----
+
+func (w *World) mWriteJSON(ex *Exec, c *callCtx) Value {
+	ex.recordOutput(c, ex.streamOf(c.args[0]), "json", c.args[1])
+	return NilRef()
+}
+
+// zzOutCount(stream, kind string) int
+func (w *World) mOutCount(ex *Exec, c *callCtx) Value {
+	stream, _ := litOf(c.args[0])
+	kind, _ := litOf(c.args[1])
+	n := BVC(0, 64)
+	for _, o := range outputs {
+		if (stream == "" || o.Stream == stream) && (kind == "" || o.Kind == kind) {
+			n = BVBin("bvadd", n, Ite(o.G, BVC(1, 64), BVC(0, 64)))
+		}
+	}
+	return IntV{n, true}
+}
+
+// zzLastJSON() any : the value of the last JSON document written to stdout (merged over paths)
+func (w *World) mLastJSON(ex *Exec, c *callCtx) Value {
+	var acc Value = NilRef()
+	for _, o := range outputs {
+		if o.Kind == "json" && o.Stream == "stdout" {
+			acc = MergeV(o.G, o.Val, acc)
+		}
+	}
+	return acc
+}
+
+func (w *World) mStdinPiped(ex *Exec, c *callCtx) Value {
+	return ex.nondet("world.stdinIsPiped", "bool")
+}
+
+// zzStdinTask(in *TaskInput, parseError bool): what ParseTaskInput will yield
+func (w *World) mStdinTask(ex *Exec, c *callCtx) Value {
+	w.stdinTask = c.args[0]
+	w.stdinParseErr = c.args[1].(BoolV).T
+	return nil
+}
+
+func (w *World) mParseTaskInput(ex *Exec, c *callCtx) Value {
+	if w.stdinTask == nil {
+		panic(unsupported("ParseTaskInput without zzStdinTask"))
+	}
+	sig := c.fn.Signature
+	vt := sig.Results().At(1).Type()
+	verr := ex.havoc("world.stdin.verr", vt, havocSpec{def: 0, by: map[string]int{}, constKeys: map[string]bool{}}, "")
+	return TupleV{E: []Value{MergeV(w.stdinParseErr, NilRef(), w.stdinTask), MergeV(w.stdinParseErr, verr, NilRef())}}
+}
+
+func (w *World) mReadBody(ex *Exec, c *callCtx) Value {
+	if w.stdinText == nil {
+		panic(unsupported("readBodyFromStdinOrEmpty without zzStdinText"))
+	}
+	return TupleV{E: []Value{w.stdinText, NilRef()}}
+}
+
+// ---- result files (L1; the byte-level check of validateResultPath is C20's B harness) ----
+
+func (w *World) mValidateResultPath(ex *Exec, c *callCtx) Value {
+	bad := ex.nondet("world.resultpath.bad", "bool").(BoolV).T
+	clean := StrV{T: UF("cleanpath", SInt, c.args[1].(StrV).T)}
+	return TupleV{E: []Value{MergeV(bad, StrLit(""), clean), MergeV(bad, ex.newError("resultpath", nil), NilRef())}}
+}
+
+func (w *World) mCaptureEvidence(ex *Exec, c *callCtx) Value {
+	bad := ex.nondet("world.evidence.bad", "bool").(BoolV).T
+	rt := c.fn.Signature.Results().At(0).Type()
+	p := c.args[1].(StrV).T
+	st := rt.Underlying().(*types.Struct)
+	sv := StructV{F: make([]Value, st.NumFields())}
+	for i := 0; i < st.NumFields(); i++ {
+		sv.F[i] = StrV{T: UF("evidence_"+strings.ToLower(st.Field(i).Name()), SInt, p)}
+	}
+	return TupleV{E: []Value{MergeV(bad, ZeroValue(rt), sv), MergeV(bad, ex.newError("evidence", nil), NilRef())}}
+}
